@@ -1,7 +1,9 @@
 #!/bin/bash
-# Re-runs every kept seeded defect (/verif/seeded/*) against scratch worktrees of /repo HEAD.
+# Re-runs every kept seeded defect (/verif/seeded/<id>/, not seeded/obsolete) against scratch
+# worktrees of /repo HEAD; SEEDRUN_JOBS of them at a time (default 1).
 cd "$(dirname "$0")/.."
 for d in seeded/*/; do
+  [ -f "$d/meta.json" ] || continue
   p=$(python3 -c "import json,sys; print(json.load(open('$d/meta.json'))['property'])")
-  tools/seedeval.sh $p $(realpath $d) ${1:-quick}
-done
+  echo "$p $(realpath $d)"
+done | xargs -P "${SEEDRUN_JOBS:-1}" -L 1 sh -c 'tools/seedeval.sh $0 $1 '"${1:-quick}"
